@@ -37,7 +37,8 @@ ASSUMPTIONS = [
 
 SUBJECTS = ["TestResult", "TextTestResult", "Multi[ext,real]", "TFR[ext]", "TFR[real]", "E2O[py26]",
             "E2O[py27]", "E2O[twisted]", "E2O[ext]", "E2O[real]", "Decorator[ext]", "Tagger[ext]", "TBT",
-            "E2O[Multi[ext]]", "Tagger[Multi[ext,real]]", "Multi[TBT,ext]", "E2S", "Multi[Tagger[ext],ext]"]
+            "E2O[Multi[ext]]", "Tagger[Multi[ext,real]]", "Multi[TBT,ext]", "E2S", "Multi[Tagger[ext],ext]",
+            "TaggerGoneOnly[ext]", "TaggerGoneOnly[TFR[real]]"]
 
 
 class Subject:
@@ -80,6 +81,13 @@ class Subject:
         elif n == "Tagger[ext]":
             self.tagger = (frozenset(["tg"]), frozenset(["a"]))
             self.top = testtools.Tagger(leaf("ext"), iter(["tg"]), (t for t in ["a"]))
+        elif n == "TaggerGoneOnly[ext]":
+            self.tagger = (frozenset(), frozenset(["a"]))       # nothing to add, one tag to remove
+            self.top = testtools.Tagger(leaf("ext"), set(), {"a"})
+        elif n == "TaggerGoneOnly[TFR[real]]":
+            self.tagger = (frozenset(), frozenset(["a", "b"]))
+            self.top = testtools.Tagger(testtools.ThreadsafeForwardingResult(leaf("real"), threading.Semaphore(1)),
+                                        frozenset(), frozenset(["a", "b"]))
         elif n == "Tagger[Multi[ext,real]]":
             self.tagger = (frozenset(["tg"]), frozenset(["a"]))
             scratch_new, scratch_gone = {"tg"}, {"a"}
@@ -178,7 +186,12 @@ def x_hist(ctx, case):
                     inside -= subject.tagger[1]
                 outcome_tags.append(("p%s" % op[1], frozenset(inside)))
                 stop_tags.append(("p%s" % op[1], frozenset(inside)))
-                testtools.PlaceHolder("p%s" % op[1], outcome=op[3], tags=ptags).run(top)
+                handed = set(ptags)
+                ph = testtools.PlaceHolder("p%s" % op[1], outcome=op[3], tags=handed)
+                # the caller goes on using the set it built the PlaceHolder from (replaying a log, say)
+                handed.clear()
+                handed.add("callers-next-tag")
+                ph.run(top)
                 run_tags -= ptags
             try:
                 got = set(top.current_tags)
@@ -218,7 +231,54 @@ def x_hist(ctx, case):
     return any(op[0] == "tags" for op in history) and bool(outcome_tags)
 
 
-SUBCHECKS = {"hist": x_hist}
+def x_tfr_fault(ctx, case):
+    """Two forwarders share one real testtools.TestResult whose outcome method raises for one test: the
+    test-local tags of that test (closed by the stopTest the forwarder still delivers) must not be observed
+    with any later test of either worker, nor stay in the target's current_tags."""
+    import testtools
+    from .. import histories as H
+    fired = []
+
+    def hook(name, test):
+        if name == case["raise_in"] and not fired:
+            fired.append(1)
+            raise RuntimeError("target raises in " + name)
+    log = recorders.Log(hook)
+    target = H.make_leaf("real", log)
+    sem = threading.Semaphore(1)
+    w1 = testtools.ThreadsafeForwardingResult(target, sem)
+    w2 = testtools.ThreadsafeForwardingResult(target, sem)
+    target.startTestRun()
+    a, b, c = (testtools.PlaceHolder(i) for i in ("A", "B", "C"))
+    if case["w1_run_tags"]:
+        w1.tags(set(case["w1_run_tags"]), set())
+    w1.startTest(a)
+    w1.tags(set(case["local"]), set())
+    try:
+        getattr(w1, case["raise_in"])(a, *([] if case["raise_in"] in ("addSuccess", "addUnexpectedSuccess") else
+                                          [None]), **({"details": {}} if case["raise_in"] not in ("addSuccess", "addUnexpectedSuccess") else {}))
+    except RuntimeError:
+        pass
+    try:
+        w1.stopTest(a)
+    except RuntimeError:
+        pass
+    w2.startTest(b)
+    w2.addSuccess(b)
+    w2.stopTest(b)
+    w1.startTest(c)
+    w1.addSuccess(c)
+    w1.stopTest(c)
+    seen = {e.test: e.payload["tags"] for e in log.events if e.name == "addSuccess"}
+    want = {"B": frozenset(), "C": frozenset(case["w1_run_tags"])}
+    ctx.check(seen == want and set(target.current_tags) == set(), "leaf-observes-reporter-tags-at-outcome",
+              lambda: {"target raised in": case["raise_in"], "tags observed with the later tests": {k: sorted(v) for k, v in seen.items()},
+                       "want": {k: sorted(v) for k, v in want.items()},
+                       "target.current_tags afterwards": sorted(target.current_tags), "case": case})
+    return True
+
+
+SUBCHECKS = {"hist": x_hist, "tfr_fault": x_tfr_fault}
 
 ALPHABET = [["tags", ["a"], []], ["tags", ["b"], ["a"]], ["tags", [], ["b"]], ["startTest"], ["outcome", "addSuccess"],
             ["outcome", "addError"], ["stopTest"], ["skip_nostart"], ["startTestRun"], ["placeholder", ["p"], "addSuccess"]]
@@ -296,6 +356,15 @@ def random_history(rng):
 
 def run(ctx):
     rng = ctx.rng
+    n = 0
+    for raise_in in ("addError", "addFailure", "addSuccess", "addSkip", "addExpectedFailure", "addUnexpectedSuccess"):
+        for run_tags in ([], ["w1"]):
+            for local in (["loc"], ["loc", "x"]):
+                if ctx.mine():
+                    n += 1
+                    ctx.execute("tfr_fault", {"raise_in": raise_in, "w1_run_tags": run_tags, "local": local})
+    ctx.note_space("two ThreadsafeForwardingResults over one TestResult whose outcome method raises once: 6 methods x "
+                   "run-level tags on/off x 2 local tag sets", n)
     maxlen = 5 if ctx.quick else 6
     seqs = legal_sequences(maxlen)
     n = 0
